@@ -177,6 +177,18 @@ TraceSetEvalMon == CfgEvent("SetEvalMon",
                                               !.embase = IF keep THEN s.embase ELSE s.real]))
 TraceSetStepMon == CfgEvent("SetStepMon", Cfg(IF s.dec THEN FinalizeF(s) ELSE s))
 TraceSetTerm   == CfgEvent("SetTerm", Cfg([s EXCEPT !.term = E.term]))
+(* A QUERY is an observation: solver.Terminated() / Terminated(info=True) between calls.  All it may do is what the  *)
+(* next Step would do first anyway -- resolve default limits (None / "counted from now") into numbers -- and its     *)
+(* answer must be the stop verdict and message of that state (judged once something has been recorded).              *)
+TraceQuery ==
+  /\ IsEvent("Query")
+  /\ LET post == Resolve(s)
+         cl == << <<"C05", "C05:query-while-running", s.pc = "idle">>,
+                  <<"C05", "C05:limit-bookkeeping", post.limG = E.limG /\ post.limE = E.limE>>,
+                  <<"C05", "C05:query-answers-the-stop-verdict-of-the-state", s.nsm > 0 => E.stop = Stop(post)>>,
+                  <<"C05", "C05:stop-message-names-a-true-condition",
+                        s.nsm > 0 => E.msg = (IF Stop(post) THEN Msg(post) ELSE "None")>> >> \o MatchClauses(post, E)
+     IN Probe(cl) /\ AllTrue(cl) /\ s' = Follow(post, E) /\ UNCHANGED pend
 TraceExit      == CfgEvent("Exit", Cfg([s EXCEPT !.exitreq = TRUE]))
 
 (* A one-line wrapper call (fmin / fmin_powell / diffev / diffev2) seen from outside: the whole run is one     *)
@@ -200,7 +212,7 @@ TraceWrap ==
      IN Probe(cl) /\ AllTrue(cl) /\ s' = [Resolve(t) EXCEPT !.pc = "idle", !.stopped = TRUE] /\ UNCHANGED pend
 
 TraceNext == \/ TraceWrap \/ TraceCall \/ TraceIter \/ TraceRet \/ TraceSetLimits \/ TraceSetCfg \/ TraceFinalize
-             \/ TraceSetEvalMon \/ TraceSetStepMon \/ TraceSetTerm \/ TraceExit
+             \/ TraceSetEvalMon \/ TraceSetStepMon \/ TraceSetTerm \/ TraceExit \/ TraceQuery
 
 TraceSpec == TraceInit /\ [][TraceNext]_tvars
 
